@@ -593,19 +593,26 @@ econf_err econf_writeFile(econf_file *key_file, const char *save_to_dir,
     return ECONF_WRITEERROR;
   }
 
-  // Write to file
+  // Write to file. The entries without a group are written first (pass 0):
+  // behind a group header they would be read back as members of that group.
+  const char *last_group = NULL;
+  for (int pass = 0; pass < 2; pass++)
   for (size_t i = 0; i < key_file->length; i++) {
+    bool nogroup = !strcmp(key_file->file_entry[i].group, KEY_FILE_NULL_VALUE);
+    if ((pass == 0) != nogroup)
+      continue;
+
     // Writing group
-    if (!i || strcmp(key_file->file_entry[i - 1].group,
-                     key_file->file_entry[i].group)) {
-      if (i)
+    if (last_group == NULL || strcmp(last_group, key_file->file_entry[i].group)) {
+      if (last_group)
         fprintf(kf, "\n");
-      if (strcmp(key_file->file_entry[i].group, KEY_FILE_NULL_VALUE)) {
+      if (!nogroup) {
 	char *group = addbrackets(key_file->file_entry[i].group);
 	fprintf(kf, "%s\n", group);
         free(group);
       }
     }
+    last_group = key_file->file_entry[i].group;
 
     // Writing heading comments
     if (key_file->file_entry[i].comment_before_key &&
